@@ -300,10 +300,17 @@ func (w *world) dial(suffix string) *vclient.Client {
 
 var childStart = time.Now()
 var dumpOnce sync.Once
+var undecidedShown atomic.Int64
 
 func (w *world) inconclusive(s string) {
 	w.bad = true
-	w.e.run.Inconclusive(fmt.Sprintf("%s (%s, %.1fs into the child): %s", w.tag, w.e.class, time.Since(childStart).Seconds(), s))
+	// A scenario that a watchdog (or a lost connection) leaves undecided is neither a pass
+	// nor a violation; the parent makes the run inconclusive when there are more than a
+	// handful of them (see main).
+	w.e.run.Count("undecided_scenarios", 1)
+	if undecidedShown.Add(1) <= 3 {
+		w.e.run.Set(fmt.Sprintf("undecided_example_b%d_%d", w.e.batch, undecidedShown.Load()), fmt.Sprintf("%s (%s, %.1fs into the child): %s", w.tag, w.e.class, time.Since(childStart).Seconds(), s))
+	}
 	// for the post-mortem (the check's --keep): where is everybody?
 	dumpOnce.Do(func() {
 		buf := make([]byte, 8<<20)
@@ -380,14 +387,61 @@ func live(cs []*vclient.Client) []*vclient.Client {
 	return out
 }
 
-func (w *world) quiesce(more ...*vclient.Client) bool {
-	cs := live(append(w.clients(), more...))
-	if len(cs) == 0 {
-		return true
+// quiesce establishes logical quiescence of the world.
+//
+// What a message causes reaches a member either by a direct write from the goroutine
+// that handles the message (before that goroutine answers a ping), or through the
+// member's FIFO action queue, possibly in several hops (moderation: target's queue,
+// target's queue again, everybody's queue).  A ping only flushes the first kind (the
+// server picks at random between a ready socket and a ready queue).  So the helper
+// operator sends a 'setdata' with a fresh number: the server queues a 'joined change'
+// to every member, behind whatever is in its queue; when every member has shown that
+// number, one hop has been flushed everywhere.  Four such rounds flush four hops (the
+// longest chain in the server has three), then a ping per connection flushes the
+// direct writes and covers the connections that are not members.
+const barrierKey = "c11-barrier"
+
+var barrierCtr atomic.Int64
+
+func barrierValue(m vclient.Msg) (int64, bool) {
+	if m.Str("type") != "joined" || m.Str("kind") != "change" {
+		return 0, false
 	}
-	if !quiesce(cs, 3, 20*time.Millisecond) {
-		w.inconclusive("quiescence watchdog fired")
-		return false
+	d, _ := m["data"].(map[string]any)
+	v, ok := d[barrierKey].(float64)
+	return int64(v), ok
+}
+
+func (w *world) quiesce(more ...*vclient.Client) bool {
+	if w.hlp != nil && !closedNow(w.hlp) {
+		for round := 0; round < 4; round++ {
+			n := barrierCtr.Add(1)
+			var members []*vclient.Client
+			marks := map[*vclient.Client]int{}
+			for _, c := range w.clients() {
+				if w.isMember(c) {
+					members = append(members, c)
+					marks[c] = c.EventCount()
+				}
+			}
+			if err := w.hlp.Send(vclient.Msg{"type": "groupaction", "kind": "setdata", "source": w.hlp.ID, "value": map[string]any{barrierKey: n}}); err != nil {
+				w.inconclusive("the helper operator lost its connection")
+				return false
+			}
+			for _, c := range members {
+				_, ok := c.WaitForFrom(marks[c], func(m vclient.Msg) bool { v, ok := barrierValue(m); return ok && v >= n }, wd)
+				if !ok && !goneSoon(c) {
+					w.inconclusive("barrier round not echoed to member " + c.ID)
+					return false
+				}
+			}
+		}
+	}
+	for _, c := range live(append(w.clients(), more...)) {
+		if !ping(c) && !goneSoon(c) {
+			w.inconclusive("no pong from the server for " + c.ID)
+			return false
+		}
 	}
 	return true
 }
@@ -402,10 +456,21 @@ func (w *world) close() {
 	}
 }
 
-// news returns what c received since index from, pings and pongs excluded.
+// news returns what c received since index from; pings, pongs and the echoes of the
+// barrier rounds excluded.  The first 'joined change' that shows a new barrier number is
+// the echo of that round; any other 'joined change' is a real event (it shows the
+// number of the last round, like everything else that reads the group's data).
 func news(c *vclient.Client, from int) []vclient.Msg {
 	var out []vclient.Msg
-	for _, e := range c.EventsFrom(from) {
+	last := int64(0)
+	for i, e := range c.Events() {
+		if v, ok := barrierValue(e.M); ok && v > last {
+			last = v
+			continue
+		}
+		if i < from {
+			continue
+		}
 		if t := e.M.Str("type"); t == "ping" || t == "pong" {
 			continue
 		}
